@@ -44,6 +44,31 @@ func ruleDivGuard(c *Ctx, r *Report) {
 			if _, isConst := bo.Y.(*ssa.Const); isConst {
 				return // constant divisor: a zero constant is a compile error
 			}
+			// (met with seed C05j) a package-level variable that is assigned once, in the package initialiser, a
+			// non-zero constant (var termSize = int64(unsafe.Sizeof(...)))
+			if ld, ok := stripConv(bo.Y).(*ssa.UnOp); ok && ld.Op == token.MUL {
+				if g, ok := ld.X.(*ssa.Global); ok && c.isLibPkg(g.Pkg) {
+					nonZeroOnce, stores := true, 0
+					for _, a := range c.globalAccesses(g) {
+						if !a.write {
+							continue
+						}
+						stores++
+						st, isStore := a.in.(*ssa.Store)
+						if !isStore || !isInitFn(a.fn) {
+							nonZeroOnce = false
+							continue
+						}
+						if k, ok := constInt(stripConv(st.Val)); !ok || k == 0 {
+							nonZeroOnce = false
+						}
+					}
+					if nonZeroOnce && stores == 1 {
+						r.ok(rule, fmt.Sprintf("%s/%s(%s)", fname(fn), bo.Op, valName(bo.Y)), c.at(bo), "integer division/remainder divisor cannot be 0", "the divisor is a package-level variable assigned once, in the initialiser, a non-zero constant", false)
+						return
+					}
+				}
+			}
 			key := fmt.Sprintf("%s/%s(%s)", fname(fn), bo.Op, valName(bo.Y))
 			rg := c.rangeAt(bo.Block(), bo.Y)
 			if rg.excludes(0) {
@@ -885,5 +910,73 @@ func (c *Ctx) nilableFieldUses(r *Report, rule, desc, typ string, only map[strin
 	}
 	if n == 0 {
 		r.undecided(rule, "scan/uses:"+typ, "-", desc, "no use of a nilable field of "+typ+" found")
+	}
+}
+
+// ---------------------------------------------------------------------------
+// R-MAKE-RECOVERS (C05; added after seed C05j): `make([]T, n)` with a length that comes from a Prolog integer can
+// panic in the Go runtime ("makeslice: len out of range") for lengths the memory check lets through; "no returned
+// error is the residue of a recovered Go runtime panic" (the generic recovery of the trampoline turns the panic
+// into a Go error, not a term). The function that allocates slices for user-chosen lengths (the one that reads the
+// free-memory hook) defers a closure that calls recover().
+func ruleMakeRecovers(c *Ctx, r *Report) {
+	const rule = "R-MAKE-RECOVERS"
+	desc := "the allocator of user-sized slices turns a runtime panic of make into its own error"
+	mf := c.global("memFree")
+	if mf == nil {
+		r.undecided(rule, "anchor:memFree", "-", desc, "not found")
+		return
+	}
+	n := 0
+	for _, fn := range c.LibFuncs() {
+		if fn.Parent() != nil || funcPkg(fn) != c.Engine {
+			continue
+		}
+		reads, makes := false, false
+		eachInstr(fn, func(in ssa.Instruction) {
+			if ld, ok := in.(*ssa.UnOp); ok && ld.Op == token.MUL && ld.X == ssa.Value(mf) {
+				reads = true
+			}
+			if _, ok := in.(*ssa.MakeSlice); ok {
+				makes = true
+			}
+		})
+		if !reads || !makes {
+			continue
+		}
+		n++
+		key := fname(fn) + "/deferred-recover"
+		recovers := false
+		eachInstr(fn, func(in ssa.Instruction) {
+			d, ok := in.(*ssa.Defer)
+			if !ok {
+				return
+			}
+			var callee *ssa.Function
+			switch v := d.Call.Value.(type) {
+			case *ssa.Function:
+				callee = v
+			case *ssa.MakeClosure:
+				callee, _ = v.Fn.(*ssa.Function)
+			}
+			if callee == nil {
+				return
+			}
+			eachInstr(callee, func(in2 ssa.Instruction) {
+				if ci, ok := in2.(ssa.CallInstruction); ok {
+					if b, ok := ci.Common().Value.(*ssa.Builtin); ok && b.Name() == "recover" {
+						recovers = true
+					}
+				}
+			})
+		})
+		if recovers {
+			r.ok(rule, key, c.Pos(fn.Pos()), desc, "a deferred closure calls recover()", true)
+		} else {
+			r.bad(rule, key, c.Pos(fn.Pos()), desc, "no deferred recover(): a length that passes the memory test but exceeds what make accepts (functor(_, f, 100000000000000000)) panics in the runtime, and the caller gets `panic: runtime error: makeslice: len out of range` instead of resource_error(memory)")
+		}
+	}
+	if n == 0 {
+		r.undecided(rule, "scan/allocator", "-", desc, "no function reads the free-memory hook and makes a slice")
 	}
 }
